@@ -20,7 +20,7 @@ BodySeq == <<"none", "json", "jsonarr", "form", "multi", "octet", "json|form:jso
 MyBodies == {BodySeq[j] : j \in {k \in 1..Len(BodySeq) : k % Parts = Part}}
 RMenu == << [status |-> 200, how |-> "model"], [status |-> 201, how |-> "text"], [status |-> 204, how |-> "none"], [status |-> 404, how |-> "list"],
             [status |-> 202, how |-> "int"], [status |-> 206, how |-> "file"], [status |-> 205, how |-> "none"],
-            [status |-> 203, how |-> "t0int"] >>
+            [status |-> 203, how |-> "t0int"], [status |-> 207, how |-> "const"], [status |-> 208, how |-> "ndjson"] >>
 RespSeqs == {[k \in 1..Len(ix) |-> RMenu[ix[k]]] : ix \in {q \in UNION {[1..k -> 1..Len(RMenu)] : k \in 1..MaxResp} : \A a, b \in 1..Len(q) : a < b => q[a] < q[b]}}
 Variants == {"sync_detailed", "sync", "asyncio_detailed", "asyncio"}
 OptIdx(ps) == {i \in 1..Len(ps) : ~ps[i].req}
